@@ -63,7 +63,9 @@ CONFIRM_MIN_SECONDS = 90.0
 INFRA_SECONDS = 300.0
 REFUSALS = ["multi-field", "no-sub-resolver", "unknown-field", "query-op", "mutation-op", "blocking-runtime", "threadpool-runtime",
             "multi-expanded", "zero-fields", "opsel-unknown", "opsel-ambiguous", "vars", "shorthand-op", "named-query-op", "query-op-missing-var",
-            "null-arg-var", "null-include-var", "null-skip-var"]
+            "null-arg-var", "null-include-var", "null-skip-var",
+            "meta-schema-field", "meta-type-field", "blocking-runtime-missing-var", "threadpool-runtime-missing-var",
+            "mutation-op-unsupported"]
 EXPECTED_EXC = {
     "multi-field": "ExecutionError",
     "no-sub-resolver": "RuntimeError",
@@ -85,6 +87,11 @@ EXPECTED_EXC = {
     "null-arg-var": "ExecutionError",         # subscription ($n: Int = 2) { root: evr(n: $n) {…} }   with {"n": null}, evr(n: Int! = 1)
     "null-include-var": "ExecutionError",     # subscription ($u: Boolean = true) { root: ev(n: 5) @include(if: $u) {…} }   with {"u": null}
     "null-skip-var": "ExecutionError",        # … @skip(if: $u) …
+    "meta-schema-field": "RuntimeError",      # subscription { root: __schema {…} }: no such field on the subscription root
+    "meta-type-field": "RuntimeError",        # subscription { root: __type(name: "Evt") {…} }
+    "blocking-runtime-missing-var": "RuntimeError",    # the runtime is refused whatever the variables are
+    "threadpool-runtime-missing-var": "RuntimeError",
+    "mutation-op-unsupported": "RuntimeError",         # a mutation on a schema WITHOUT mutation type is still "not a subscription"
 }
 LEAF = ("a", "ad", "bad", "badd")
 OBJ = ("o", "od")
@@ -148,6 +155,9 @@ def var_fields(case, ev):
     return out
 
 
+ACC_DEFAULT = [7]      # the default value object of Evt.acc(ids:), reset before every execution (a resolver may have mutated it)
+ACC_TEXT = {"literal": "acc: acc(ids: [9])", "default": "acc: acc", "variable": "acc: acc(ids: $ids)"}
+ACC_BASE = {"literal": [9], "default": [7], "variable": [8]}
 VAR_SEL_TEXT = "vm: mode(m: $e) vo: opt(o: $in) va: argf(x: $nul) vs: a @skip(if: $skip) vi: a @include(if: $flag)"
 
 
@@ -263,6 +273,10 @@ def default_root(case):
         return [{"leaf": "N"}]
     if r == "unknown-field":
         return [{"leaf": "U"}]
+    if r == "meta-schema-field":
+        return [{"leaf": "MS"}]
+    if r == "meta-type-field":
+        return [{"leaf": "MT"}]
     return [{"leaf": "R"}]
 
 
@@ -286,7 +300,7 @@ def collected_keys(root):
     return keys
 
 
-LEAF_KEY = {"R": "root", "Ra": "root", "Rb": "root", "O": "other", "O2": "other2", "Os": None, "Rs": None, "N": "root", "U": "root"}
+LEAF_KEY = {"R": "root", "Ra": "root", "Rb": "root", "O": "other", "O2": "other2", "Os": None, "Rs": None, "N": "root", "U": "root", "MS": "root", "MT": "root"}
 
 
 def gen_case(rng):
@@ -344,6 +358,15 @@ def gen_case(rng):
     if "root" not in case and rng.random() < 0.3:
         case["vars"] = gen_vars(rng)
     case["eager_head"] = rng.random() < 0.3
+    if "root" not in case and not case.get("vars") and n >= 2 and rng.random() < 0.15:
+        case["acc"] = rng.choice(sorted(ACC_TEXT))
+    if n >= 1 and rng.random() < 0.08 and not has_animals(sel):
+        # a resolver raises a LIBRARY error while event k is executed: that is the (data null) result of event k, the stream goes on
+        k = rng.randrange(n)
+        if is_event(case["events"][k]):
+            counter[0] += 1
+            sel.append({"k": "k%d" % counter[0], "f": "a", "sel": []})
+            case["events"][k]["abort"] = ["root/k%d" % counter[0]]
     return case
 
 
@@ -368,9 +391,11 @@ def render_sel(sel):
 def render_root(case):
     """-> (root selection text, fragment definitions text)"""
     sel = case["sel"]
-    arg = "$v" if case["refusal"] in ("vars", "query-op-missing-var") else ("$n" if case.get("vars") else "5")
+    arg = "$v" if case["refusal"] in ("vars", "query-op-missing-var", "blocking-runtime-missing-var", "threadpool-runtime-missing-var") else ("$n" if case.get("vars") else "5")
     half = max(1, len(sel) // 2)
     extra = (" " + VAR_SEL_TEXT) if case.get("vars") else ""
+    if case.get("acc"):
+        extra += " " + ACC_TEXT[case["acc"]]
     r0 = case["refusal"]
     rfield, rdir = "ev(n: %s)" % arg, ""
     if r0 == "null-arg-var":
@@ -389,6 +414,8 @@ def render_root(case):
         "Os": "skipped: ev2 @include(if: false) { zz: a }",
         "N": "root: nosub { %s }" % render_sel(sel),
         "U": "root: nothere { zz: a }",
+        "MS": "root: __schema { queryType { name } }",
+        "MT": "root: __type(name: \"Evt\") { name }",
     }
     frags = []
 
@@ -418,13 +445,15 @@ def documents(case):
     kw = "subscription"
     if r in ("query-op", "query-op-missing-var"):
         kw = "query       "
-    elif r == "mutation-op":
+    elif r in ("mutation-op", "mutation-op-unsupported"):
         kw = "mutation    "
-    decl = "($v: Int!)" if r in ("vars", "query-op-missing-var") else ""
+    decl = "($v: Int!)" if r in ("vars", "query-op-missing-var", "blocking-runtime-missing-var", "threadpool-runtime-missing-var") else ""
     if r == "null-arg-var":
         decl = "($nn: Int = 2)"
     elif r in ("null-include-var", "null-skip-var"):
         decl = "($nu: Boolean = %s)" % ("true" if r == "null-include-var" else "false")
+    if case.get("acc") == "variable":
+        decl = "($ids: [Int] = [8])"
     if case.get("vars"):
         decl = "(%s)" % ", ".join("$%s: %s%s" % (name, t, "" if lit is None else " = " + lit) for name, (t, lit, _d, _c) in VARS.items())
     tail = (" " + frags) if frags else ""
@@ -448,7 +477,7 @@ def request_extras(case):
         return opname, {"nu": None}
     if case.get("vars"):
         return opname, copy.deepcopy(case["vars"]["send"])
-    return opname, ({} if r in ("vars", "query-op-missing-var") else None)
+    return opname, ({} if r in ("vars", "query-op-missing-var", "blocking-runtime-missing-var", "threadpool-runtime-missing-var") else None)
 
 
 # ---------------------------------------------------------------------------------------------
@@ -510,7 +539,7 @@ def agen_of(src):
     return gen()
 
 
-SOURCES = ("iter", "agen", "aiterable-gen", "aiterable-obj")
+SOURCES = ("iter", "agen", "aiterable-gen", "aiterable-obj", "iter-init")
 
 
 def make_source_object(kind, src):
@@ -532,6 +561,16 @@ def make_source_object(kind, src):
                     src.i += 1
                     yield e
         return Feed()
+    if kind == "iter-init":
+        # an async ITERATOR (has __anext__) whose __aiter__ sets the iteration up: the protocol calls __aiter__ first
+        class Feed3:
+            def __aiter__(self):
+                self.ready = src
+                return self
+
+            async def __anext__(self):
+                return await self.ready.__anext__()
+        return Feed3()
     if kind == "aiterable-obj":
         class Feed2:
             def __aiter__(self):
@@ -556,6 +595,9 @@ def schemas(mode):
         ps = "/".join(str(x) for x in info.path)
         if not (isinstance(root, dict) and "id" in root):
             return ps           # a falsy / foreign event used as root value: nothing fails below it
+        if ps in root.get("abort", ()):
+            from py_gql.exc import ExecutionError
+            raise ExecutionError("fail@%d abort %s" % (root["id"], ps))      # aborts THIS event: its result is data null + this error
         if ps in root.get("crash", ()):
             raise ValueError("crash@%d %s" % (root["id"], ps))      # an UNEXPECTED exception: aborts the processing of this event
         if ps in root["fail"]:
@@ -578,6 +620,10 @@ def schemas(mode):
         if name in OBJ:
             return root
         return [root] * root["len"].get(ps, 1)
+
+    def acc(root, ctx, info, ids=None):
+        ids.append(root["val"] if is_event(root) else 0)
+        return ids
 
     def swapped_a(root, ctx, info, **args):
         return value(root, info, "a") + SWAP_DELTA
@@ -658,7 +704,9 @@ def schemas(mode):
                   Field("mode", Int, args=[Argument("m", Mode)], resolver=lambda root, ctx, info, m=None: m),
                   Field("opt", Int, args=[Argument("o", Opts)], resolver=lambda root, ctx, info, o=None: o["k"] + o["d"]),
                   Field("argf", Int, args=[Argument("x", Int, default_value=9)],
-                        resolver=lambda root, ctx, info, x=None: -1 if x is None else x)]
+                        resolver=lambda root, ctx, info, x=None: -1 if x is None else x),
+                  # a resolver that MUTATES its list argument (appends the event's value) and returns it
+                  Field("acc", ListType(Int), args=[Argument("ids", ListType(Int), default_value=ACC_DEFAULT)], resolver=acc)]
             for name in LEAF:
                 fs.append(Field(name, Int, resolver=mk(name, mode == "async" and name.endswith("d"))))
             for name in OBJ:
@@ -771,9 +819,10 @@ def run_real(case, scale=1):
     from py_gql.lang import parse
 
     case = copy.deepcopy(case)
+    ACC_DEFAULT[:] = [7]
     text, _ = documents(case)
     opname, variables = request_extras(case)
-    sub_schema = schemas("async")[{"all": 2, "query": 3}.get(case.get("shared_root"), 0)]
+    sub_schema = schemas("async")[{"all": 2, "query": 3}.get("query" if case["refusal"] == "mutation-op-unsupported" else case.get("shared_root"), 0)]
     doc = parse(text)
     loop = asyncio.new_event_loop()
     out = {"refused": None, "results": [], "pulls": 0, "sub_calls": 0, "ended": False, "err": None}
@@ -787,9 +836,9 @@ def run_real(case, scale=1):
     pool_rt = None
     try:
         r = case["refusal"]
-        if r == "blocking-runtime":
+        if r in ("blocking-runtime", "blocking-runtime-missing-var"):
             rt = BlockingRuntime()
-        elif r == "threadpool-runtime":
+        elif r in ("threadpool-runtime", "threadpool-runtime-missing-var"):
             rt = pool_rt = ThreadPoolRuntime(max_workers=1)
         else:
             rt = AsyncIORuntime(loop=loop, execute_blocking_functions_in_thread=bool(case["threads"]))
@@ -922,6 +971,7 @@ def expected_results(case):
     out = []
     swap = case.get("swap")
     for k, ev in enumerate(case["events"]):
+        ACC_DEFAULT[:] = [7]
         after = swap is not None and k > swap
         if after:
             orig = twin.get_type("Evt").field_map["a"].resolver
@@ -1005,6 +1055,16 @@ def oracle(case, real):
         elif g["data"] != w["data"]:
             # is it another event's data?
             others = [j for j in range(n) if j != k and canon_response(want[j], unordered)["data"] == g["data"]]
+
+            def without_acc(d):
+                r = (d or {}).get("root")
+                return {kk: vv for kk, vv in r.items() if kk != "acc"} if isinstance(r, dict) else r
+            if case.get("acc") and without_acc(g["data"]) == without_acc(w["data"]):
+                bad.append(("kth-data:argument-values-shared-between-events:%s" % case["acc"],
+                            "result %d: acc = %r, a fresh execution of event %d gives %r (the %s argument value mutated by the resolver "
+                            "during an earlier event was handed out again)" % (k, (g["data"] or {}).get("root", {}).get("acc"), k,
+                                                                               (w["data"] or {}).get("root", {}).get("acc"), case["acc"])))
+                continue
             bad.append(("kth-data:%s" % ("other-event" if others else "differs"),
                         "result %d data %r, fresh execution of event %d gives %r" % (k, g["data"], k, w["data"])))
         elif g["errors"] != w["errors"]:
@@ -1071,6 +1131,8 @@ def event_tree(case, ev, k=0):
     fs = nodes(case["sel"] or [{"k": "zz", "f": "a", "sel": []}], ("root",))
     if case.get("vars"):
         fs += [{"k": kk, "o": "ret", "c": {"t": "leaf", "v": v + (bump if kk in ("vs", "vi") else 0)}} for kk, v in var_fields(case, ev)]
+    if case.get("acc"):
+        fs.append({"k": "acc", "o": "ret", "c": {"t": "list", "items": [{"t": "leaf", "v": v} for v in ACC_BASE[case["acc"]] + [ev["val"]]]}})
     return [{"k": "root", "o": "ret", "c": {"t": "obj", "fs": fs}}]
 
 
@@ -1088,13 +1150,13 @@ def model_request(case):
     r = case["refusal"]
     return {
         "op": "subscribe",
-        "operation": {"query-op": "query", "mutation-op": "mutation", "shorthand-op": "query", "named-query-op": "query", "query-op-missing-var": "query"}.get(r, "subscription"),
+        "operation": {"query-op": "query", "mutation-op": "mutation", "shorthand-op": "query", "named-query-op": "query", "query-op-missing-var": "query", "mutation-op-unsupported": "mutation"}.get(r, "subscription"),
         "root": model_root(root_of(case)),
-        "fieldDefined": r != "unknown-field",
+        "fieldDefined": r not in ("unknown-field", "meta-schema-field", "meta-type-field"),
         "hasSubResolver": r != "no-sub-resolver",
-        "streamRuntime": r not in ("blocking-runtime", "threadpool-runtime"),
+        "streamRuntime": r not in ("blocking-runtime", "threadpool-runtime", "blocking-runtime-missing-var", "threadpool-runtime-missing-var"),
         "opsel": "error" if r in ("opsel-unknown", "opsel-ambiguous") else "ok",
-        "vars": "error" if r in ("vars", "query-op-missing-var") else "ok",
+        "vars": "error" if r in ("vars", "query-op-missing-var", "blocking-runtime-missing-var", "threadpool-runtime-missing-var") else "ok",
         "rootCollect": "error" if r in ("null-include-var", "null-skip-var") else "ok",
         "args": "error" if r == "null-arg-var" else "ok",
         "events": [event_tree(case, ev, k) for k, ev in enumerate(case["events"])],
@@ -1112,7 +1174,7 @@ def canon_model_result(resp, sort_errors):
 def compare(case, real, ans):
     if real["err"]:
         return None
-    if any(is_event(e) and e.get("crash") for e in case["events"]):
+    if any(is_event(e) and (e.get("crash") or e.get("abort")) for e in case["events"]):
         return None         # an event whose processing raises an unexpected exception has no result: outside the model
     if "refused" not in ans:
         return ("corr:model-error", "model returned %r" % (ans,))
@@ -1136,6 +1198,13 @@ def compare(case, real, ans):
     if len(got) != len(mod):
         return ("corr:result-count", "real %d results, model %d" % (len(got), len(mod)))
     for k, (g, m) in enumerate(zip(got, mod)):
+        if g != m and case.get("acc"):
+            def without_acc(d):
+                r = (d or {}).get("root")
+                return {kk: vv for kk, vv in r.items() if kk != "acc"} if isinstance(r, dict) else r
+            if without_acc(g["data"]) == without_acc(m["data"]) and g["errors"] == m["errors"]:
+                return ("kth-data:argument-values-shared-between-events:%s" % case["acc"],
+                        "result %d: acc differs from the model: real %r, model %r" % (k, g["data"], m["data"]))
         if g != m:
             return ("corr:result:%s" % ("data" if g["data"] != m["data"] else "errors"), "result %d differs: real %r, model %r" % (k, g, m))
     if ans.get("pulls") != real["pulls"]:
@@ -1288,6 +1357,20 @@ def exhaustive_cases():
                 out.append({"kind": "stream", "refusal": None, "async_sub": a, "source": "agen" if a else "iter", "threads": False,
                             "sel": copy.deepcopy(sel), "delays": [0] * (nev + 1), "drive": drive,
                             "events": [{"id": i, "val": i, "fail": ["root/x"] if i == 1 else [], "null": [], "len": {}} for i in range(nev)]})
+    # a resolver MUTATES its list argument (literal / argument default / variable default): every event starts from the written value
+    for kind in sorted(ACC_TEXT):
+        for a in (False, True):
+            out.append({"kind": "stream", "refusal": None, "async_sub": a, "source": "iter", "threads": False, "sel": copy.deepcopy(sel),
+                        "delays": [0] * 4, "drive": "anext" if a else "async-for", "acc": kind,
+                        "events": [{"id": i, "val": 20 + i, "fail": [], "null": [], "len": {}} for i in range(3)]})
+    # a resolver raises ExecutionError while event k is executed: data-null result for event k, the other events unaffected
+    for k in range(3):
+        for pathk in ("root/x", "root/y/z"):
+            for drive in ("async-for", "anext"):
+                evs = [{"id": i, "val": 10 + i, "fail": [], "null": [], "len": {}} for i in range(3)]
+                evs[k]["abort"] = [pathk]
+                out.append({"kind": "stream", "refusal": None, "async_sub": bool(k % 2), "source": SOURCES[k % len(SOURCES)], "threads": False,
+                            "sel": copy.deepcopy(sel), "delays": [0] * 4, "drive": drive, "events": evs})
     # an UNEXPECTED exception while processing event c (its __anext__ raises), a sibling field of the same event fails LATER; the
     # consumer keeps reading: the results of the following events must not carry that late error
     csel = [{"k": "x", "f": "ad", "sel": []}, {"k": "y", "f": "badd", "sel": []}, {"k": "z", "f": "a", "sel": []}]
